@@ -136,8 +136,19 @@ def run_cases(comp_name, seed, n, params, explicit=None, chunk=None, inproc=Fals
         ex = [explicit[i] for i in idxs] if explicit is not None else None
         jobs.append((comp_name, seed, idxs, params, ex))
     ctx = multiprocessing.get_context("fork")
-    with ctx.Pool(min(NPROC, len(jobs))) as pool:
-        res = pool.map(_worker, jobs)
+    try:
+        with ctx.Pool(min(NPROC, len(jobs))) as pool:
+            # (a worker killed from outside would make a plain map() wait for ever)
+            res = pool.map_async(_worker, jobs).get(timeout=int(os.environ.get("VERIF_POOL_TIMEOUT", "5400")))
+    except Exception as e:  # noqa: BLE001  pool trouble (timeout, a worker that raised): run the jobs here, one by one
+        res = []
+        for job in jobs:
+            try:
+                res.append(_worker(job))
+            except Exception as e2:  # noqa: BLE001
+                import traceback
+                res.append([{"idx": i, "case": None, "error": "harness-error: " + traceback.format_exc()[-600:]}
+                            for i in job[2][:1]])
     return [r for part in res for r in part]
 
 
